@@ -15,7 +15,12 @@ BATTERY = "c03_battery.py"
 
 def make_specs():
     W = World()
-    return [QueueEvents(W, PROP, want=("table",))]
+    out = [QueueEvents(W, PROP, want=("table",))]
+    from specs import c14
+    for sp in c14.make_specs():   # the generators' contract used by the table is re-verified here
+        sp.prop = PROP
+        out.append(sp)
+    return out
 
 
 EXPECTED_CLAUSES = ["post[table:pair:IN_MOVED_FROM+IN_MOVED_TO|ISDIR,recursive:every sub-event queued once", "post[table:single:IN_CREATE:event0=FileCreatedEvent(path,'')]", "post[table:single:IN_CREATE|ISDIR:event1=DirModifiedEvent(parent,'')]",
